@@ -990,6 +990,28 @@ func (en *Engine) applyCut(st *State, f *Frame, cs *CutSpec) {
 	sc.st = st
 	sc.locals = en.localsResolver(st, f)
 	g := sc.evalBool(cs.Assert.Expr)
+	if cs.Split {
+		// case analysis: this path continues under g, a copy of it under !g
+		if g.IsTrue() || g.IsFalse() {
+			return
+		}
+		if en.intervalHolds(st, g) {
+			st.addSide(g, "split condition decided by range")
+			return
+		}
+		if ng := Not(g); en.intervalHolds(st, ng) {
+			st.addSide(ng, "split condition decided by range")
+			return
+		}
+		other := st.clone()
+		st.assume(g)
+		st.trace = append(st.trace, "split: "+cs.Assert.Src)
+		other.assume(Not(g))
+		other.trace = append(other.trace, "split: !("+cs.Assert.Src+")")
+		en.pendingForks = append(en.pendingForks, other)
+		en.paths++
+		return
+	}
 	label := fmt.Sprintf("call%d", cs.Call)
 	if cs.Anchor != "" {
 		label = strings.ReplaceAll(cs.Anchor, " ", "_")
@@ -1028,7 +1050,12 @@ func (en *Engine) applyCut(st *State, f *Frame, cs *CutSpec) {
 	sc2.st = st
 	sc2.locals = en.localsResolver(st, f)
 	before := len(st.facts)
+	st.caseConcl = nil
 	st.assume(sc2.evalBool(cs.Assert.Expr))
+	for _, c := range st.caseConcl {
+		st.assume(c) // follows from the proved cases
+	}
+	st.caseConcl = nil
 	if cs.Assume != nil {
 		st.assume(sc2.evalBool(cs.Assume.Expr))
 		en.assumedUsed[en.curFunc+" (bridge assumed at cut: "+cs.Assume.Src+")"] = true
